@@ -25,6 +25,9 @@ func (e *Engine) intrinsic(name string, fn *ssa.Function, a []Value) Value {
 	switch name {
 	case "Symbolic":
 		return true
+	case "Concrete":
+		_, ok := a[0].(bool)
+		return ok
 	case "Cfg":
 		v, ok := e.cfg(str(a[0]))
 		if !ok {
